@@ -8,6 +8,7 @@ import (
 	"crypto"
 	"errors"
 	"fmt"
+	"github.com/go-git/go-git/v6/internal/simhook"
 	"hash"
 	"io"
 	"maps"
@@ -246,6 +247,7 @@ func (d *DotGit) Initialize() error {
 
 // Close closes all opened files.
 func (d *DotGit) Close() error {
+	simhook.BeforeLock(&d.packHandlesMu)
 	d.packHandlesMu.Lock()
 	handles := d.packHandles
 	d.packHandles = nil
@@ -589,6 +591,7 @@ func (b *bytesReadAtCloser) Close() error { return nil }
 // is false. Returns [ErrPackfileNotFound] when the .pack file
 // cannot be located.
 func (d *DotGit) packHandle(hash plumbing.Hash) (*packhandle.PackHandle, error) {
+	simhook.BeforeLock(&d.packHandlesMu)
 	d.packHandlesMu.Lock()
 	defer d.packHandlesMu.Unlock()
 
@@ -666,6 +669,7 @@ func (d *DotGit) packHandle(hash plumbing.Hash) (*packhandle.PackHandle, error) 
 // Errors returned by fn are joined; the walk continues past a
 // failing entry so one bad pack does not strand FDs in others.
 func (d *DotGit) walkPackHandles(fn func(*packhandle.PackHandle) error) error {
+	simhook.BeforeLock(&d.packHandlesMu)
 	d.packHandlesMu.Lock()
 	handles := slices.Collect(maps.Values(d.packHandles))
 	d.packHandlesMu.Unlock()
@@ -787,6 +791,7 @@ func (d *DotGit) DeleteOldObjectPackAndIndex(hash plumbing.Hash, t time.Time) er
 		}
 	}
 
+	simhook.BeforeLock(&d.packHandlesMu)
 	d.packHandlesMu.Lock()
 	ph, ok := d.packHandles[hash]
 	if ok {
@@ -991,6 +996,7 @@ func (d *DotGit) cleanPackList() error {
 	d.packMap = nil
 	d.packList = nil
 
+	simhook.BeforeLock(&d.packHandlesMu)
 	d.packHandlesMu.Lock()
 	handles := d.packHandles
 	d.packHandles = nil
